@@ -157,10 +157,10 @@ pub fn c01_verdict(p: &Pre) -> Option<(String, String)> {
             if v != x {
                 return Some(("value".into(), format!("interpreter returned {x:#x}, ISA semantics give {v:#x}")));
             }
-            if p.rr.pkt_clean && p.rr.pkt_after != p.ir.pkt_after {
+            if !masked_eq(&p.rr.pkt_after, &p.rr.pkt_mask, &p.ir.pkt_after) {
                 return Some(("pkt-bytes".into(), format!("packet bytes differ: interp {} / ref {}", crate::util::hex(&p.ir.pkt_after), crate::util::hex(&p.rr.pkt_after))));
             }
-            if p.rr.mbuff_clean && p.rr.mbuff_after != p.ir.mbuff_after {
+            if !masked_eq(&p.rr.mbuff_after, &p.rr.mbuff_mask, &p.ir.mbuff_after) {
                 return Some(("mbuff-bytes".into(), "metadata buffer bytes differ".into()));
             }
             if p.rr.steps != p.ir.steps || p.rr.pc_hash != p.ir.pc_hash {
@@ -280,10 +280,10 @@ pub fn compare_engine(p: &Pre, e: &EngineEnd, engine: Engine) -> Result<Option<M
                 if r.value != *iv {
                     return mm("value", format!("{} returned {:#x}, interpreter {iv:#x}", engine.name(), r.value));
                 }
-                if p.rr.pkt_clean && r.pkt != p.ir.pkt_after {
+                if !masked_eq(&p.ir.pkt_after, &p.rr.pkt_mask, &r.pkt) {
                     return mm("pkt-bytes", format!("packet bytes differ: {} {} / interp {}", engine.name(), crate::util::hex(&r.pkt), crate::util::hex(&p.ir.pkt_after)));
                 }
-                if p.rr.mbuff_clean && r.mbuff != p.ir.mbuff_after {
+                if !masked_eq(&p.ir.mbuff_after, &p.rr.mbuff_mask, &r.mbuff) {
                     return mm("mbuff-bytes", "metadata buffer bytes differ".into());
                 }
                 if !r.canary_ok {
@@ -308,7 +308,6 @@ fn deviant(p: &Pre) -> &'static str {
     }
 }
 
-#[cfg(feature = "std")]
 pub fn check_compiled(rep: &mut Report, prop: &str, batch: &[Pre], engine: Engine, family: Family) {
     // eligible: reference says clean value, interpreter returned a value
     let elig: Vec<&Pre> = batch
@@ -339,7 +338,7 @@ pub fn check_compiled(rep: &mut Report, prop: &str, batch: &[Pre], engine: Engin
                 // is the interpreter the deviating side, in the way a known finding describes?
                 if c01_verdict(p).is_some() {
                     if let (Some(ops), EngineEnd::Rec(r), Outcome::Value(v)) = (explained_by_alt(p), e, &p.rr.outcome) {
-                        let eng_ok = r.status == 0 && r.value == *v && (!p.rr.pkt_clean || r.pkt == p.rr.pkt_after) && (!p.rr.mbuff_clean || r.mbuff == p.rr.mbuff_after);
+                        let eng_ok = r.status == 0 && r.value == *v && masked_eq(&p.rr.pkt_after, &p.rr.pkt_mask, &r.pkt) && masked_eq(&p.rr.mbuff_after, &p.rr.mbuff_mask, &r.mbuff);
                         if eng_ok {
                             let sig = format!("{prop}:{}:known-alt:interp-unsigned-jmp-imm-zero-extended:{ops}", engine.name());
                             rep.violation(&sig, format!("{} [{} follows the ISA; the interpreter's result is reproduced by zero-extending the immediate of {ops}]", m.detail, engine.name()), witness(p, json!({"engine": engine.name()})));
